@@ -102,7 +102,9 @@ struct Fin {
 						int sk = 2 + static_cast<int>(b % 5U);
 						vp::ops::with_operand<D, int, true>(src, sk, [&](auto& w) {
 							if(kind == N_ASSIGN_VIEW) {
-								switch((b >> 3U) % 5U) {
+								switch((b >> 3U) % 7U) {
+									case 5: expect_assert(death_test([&] { v = std::as_const(w)(); }), "lvalue view = temporary read-only view of different extents"); break;
+									case 6: expect_assert(death_test([&] { std::move(v) = std::as_const(w)(); }), "rvalue view = temporary read-only view of different extents"); break;
 									case 0: expect_assert(death_test([&] { v = w; }), "lvalue view = view of different extents"); break;
 									case 1: expect_assert(death_test([&] { std::move(v) = w; }), "rvalue view = view of different extents"); break;
 									case 2: expect_assert(death_test([&] { v = std::move(w); }), "lvalue view = rvalue view of different extents (A() = B())"); break;
